@@ -135,8 +135,20 @@ def sqdist(a, b):
     return sum((x - y) * (x - y) for x, y in zip(a, b))
 
 
-def kernel_matrix(pts, kind, c=1):
-    """exact kernel values, then rounded to the doubles both sides will read (returned as Fractions)"""
+UNIT_EXPONENTS = [0, 0, 0, 0, -6, 5, -40, -30, -20, -10, 10, 20, 30]
+
+
+def pick_unit(r):
+    """the unit the data is expressed in: a power of two between 2^-40 and 2^30 (exact rescaling of dyadic data; targets
+    absolute thresholds / epsilons in the code under proof)"""
+    return Fraction(2) ** r.choice(UNIT_EXPONENTS)
+
+
+def kernel_matrix(pts, kind, c=1, unit=1):
+    """exact kernel values, then rounded to the doubles both sides will read (returned as Fractions).  `unit` is the
+    unit of the coordinates: the nonlinear kernels carry it in their parameter ((u^2 + x.y)^2, 1/(1+|x-y|^2/(c u^2))), so
+    the same data in other units gives the same geometry"""
+    unit = Fraction(unit)
     N = len(pts)
     K = [[None] * N for _ in range(N)]
     for i in range(N):
@@ -144,9 +156,9 @@ def kernel_matrix(pts, kind, c=1):
             if kind == "linear":
                 v = dot(pts[i], pts[j])
             elif kind == "poly2":
-                v = (1 + dot(pts[i], pts[j])) ** 2
+                v = (unit * unit + dot(pts[i], pts[j])) ** 2
             elif kind == "cauchy":            # 1/(1+|x-y|^2/c): rational, positive definite
-                v = 1 / (1 + sqdist(pts[i], pts[j]) / Fraction(c))
+                v = 1 / (1 + sqdist(pts[i], pts[j]) / (Fraction(c) * unit * unit))
             else:
                 raise ValueError(kind)
             v = as_double(v)
@@ -520,6 +532,10 @@ def generic_correspond(ctx, harness_src, exe, prop, plan_fn, build_line, label, 
                 stat_fn(ctx, spec, line, io, v)
             ctx.stat("verdict:" + cls + ((":" + sig) if cls == "skip" else ""))
             ctx.stat("range:" + ("shuffled-subset-among-decoys" if spec.get("dseed") is not None else "identity"))
+            if spec.get("unit") is not None:
+                u = Fraction(spec["unit"])
+                e = (u.numerator.bit_length() - 1) if u >= 1 else -(u.denominator.bit_length() - 1)
+                ctx.stat("unit:2^%d" % e)
             for key in ("kern", "kind", "metric", "nm", "decade", "t", "rot"):
                 if key in spec and not (key == "nm" and spec["op"] != "embed"):
                     ctx.stat("%s:%s" % (key, spec[key]))
